@@ -48,3 +48,49 @@ def dtype_comparisons(ctx, world):
             inst = f"{mod.name}:{norm_text(x)[:60]}"
             ctx.fail("A4.dtypecmp", inst, f"dtypecmp:{mod.name}|{norm_text(x)[:80]}", loc_of(mod, x), f"`{norm_text(x)[:70]}` compares a dtype with a Python scalar type: true for one width only (complex128 / float64)", "the same call with complex64 (or float32) operands: the kind decision takes the other branch, e.g. the imaginary part of a cotangent is dropped")
     ctx.ob("A4.dtypecmp", "dtype-valued expressions are never compared with Python scalar types", True, "autograd/*", nontrivial=False) if n == 0 else None
+
+
+def cotangent_template(ctx, world):
+    """A4.template: repeat_to_match_shape(g, shape, dtype, axis, keepdims) rebuilds a cotangent in the space of the
+    differentiated argument: its shape and dtype operands have to be taken from THAT argument on every path (the
+    reduction's own dtype= option describes the accumulator of the forward pass, not the argument)."""
+    from ..ruleir import leaves
+    from ..terms import walk
+    from ..tutil import expand, unseq
+    from .common import construct_of
+
+    ctx.describe("A4.template", "in every VJP rule the shape and dtype handed to repeat_to_match_shape derive from the differentiated argument on every path (shape(x) / result_type(x) / metadata(x)), never from another parameter of the primitive such as the reduction's dtype= option")
+    n = 0
+    for e in world.table.entries:
+        if e.mode != "vjp" or e.spec != "maker" or not world.in_numpy_scope(e) or not isinstance(e.argnum, int):
+            continue
+        ir = world.ir(e)
+        if ir is None or not ir.ok:
+            continue
+        calls = []
+        for root in (ir.made, ir.result):
+            if root is None:
+                continue
+            for t in walk(unseq(expand(world.ev, root, {"autograd.numpy.numpy_vjps.repeat_to_match_shape"}))):
+                if t.op == "call" and t.fn.op == "ref" and t.fn.ref.qual == "autograd.numpy.numpy_vjps.repeat_to_match_shape" and not any(t is c for c in calls):
+                    calls.append(t)
+        for c in calls:
+            n += 1
+            inst = construct_of(e)
+            bad = None
+            for pos, pname in ((1, "shape"), (2, "dtype")):
+                op_ = c.args[pos] if len(c.args) > pos else c.kw.get(pname)
+                if op_ is None:
+                    continue
+                for _conds, leaf in leaves(world.ev, op_):
+                    args_in = [x for x in walk(leaf) if x.op == "arg" and isinstance(x.index, int)]
+                    foreign = [x for x in args_in if x.index != e.argnum]
+                    own = [x for x in args_in if x.index == e.argnum]
+                    if foreign and not own and bad is None:
+                        bad = (pname, foreign[0])
+            if bad is None:
+                ctx.ob("A4.template", inst, True, e.loc)
+            else:
+                pname, a = bad
+                ctx.fail("A4.template", inst, f"vjp:{e.prim_id}|template-{pname}", e.loc, f"on some path the {pname} of the rebuilt cotangent is the primitive's parameter `{a.get('name') or a.index}`, not a property of the differentiated argument", "the reduction called with dtype= different from the argument's dtype (np.sum(x, dtype=np.float32) on float64 x; dtype=float64 on a complex x): the gradient has the accumulator's dtype / kind")
+    ctx.floor("A4.template repeat_to_match_shape call sites in VJP rules", n, 3)
